@@ -32,7 +32,7 @@ type progCase struct {
 	TimeoutMs int    `json:"timeout_ms"`
 }
 
-var atRe = regexp.MustCompile(`\n\tat ([^\n]*?):?(\d+):(\d+)`)
+var atRe = regexp.MustCompile(`(?m)^\tat (?:(.*):)?(\d+):(\d+)`)
 
 type srcPos struct {
 	File string `json:"file"`
@@ -74,6 +74,25 @@ func parsePositions(msg string, files map[string]string) []srcPos {
 }
 
 // classifyRuntime maps an error text to the classes of DESIGN.md appendix D.
+// sentinels: for each engine sentinel (and the host error) whether the error text names it and
+// whether errors.Is still recognises it - the two must agree (C14).
+func sentinels(err error) V {
+	msg := err.Error()
+	out := V{}
+	for name, e := range map[string]error{
+		"alloc_limit": tengo.ErrObjectAllocLimit, "stack_overflow": tengo.ErrStackOverflow,
+		"index_out_of_bounds": tengo.ErrIndexOutOfBounds, "string_limit": tengo.ErrStringLimit,
+		"bytes_limit": tengo.ErrBytesLimit, "host_error": ErrHost,
+	} {
+		text := strings.Contains(msg, e.Error())
+		is := errors.Is(err, e)
+		if text || is {
+			out[name] = V{"text": text, "is": is}
+		}
+	}
+	return out
+}
+
 func classifyRuntime(err error) string {
 	msg := err.Error()
 	msg = strings.TrimPrefix(msg, "Runtime Error: ")
@@ -81,15 +100,19 @@ func classifyRuntime(err error) string {
 		msg = msg[:i]
 	}
 	switch {
-	case errors.Is(err, tengo.ErrObjectAllocLimit):
+	case errors.Is(err, ErrHost) || strings.HasPrefix(msg, ErrHost.Error()):
+		return "host_error"
+	case strings.Contains(msg, "host function panicked"):
+		return "host_panic"
+	case errors.Is(err, tengo.ErrObjectAllocLimit) || strings.HasPrefix(msg, tengo.ErrObjectAllocLimit.Error()):
 		return "alloc_limit"
-	case errors.Is(err, tengo.ErrStackOverflow):
+	case errors.Is(err, tengo.ErrStackOverflow) || strings.HasPrefix(msg, tengo.ErrStackOverflow.Error()):
 		return "stack_overflow"
-	case errors.Is(err, tengo.ErrStringLimit):
+	case errors.Is(err, tengo.ErrStringLimit) || strings.HasPrefix(msg, tengo.ErrStringLimit.Error()):
 		return "string_limit"
-	case errors.Is(err, tengo.ErrBytesLimit):
+	case errors.Is(err, tengo.ErrBytesLimit) || strings.HasPrefix(msg, tengo.ErrBytesLimit.Error()):
 		return "bytes_limit"
-	case errors.Is(err, tengo.ErrIndexOutOfBounds):
+	case errors.Is(err, tengo.ErrIndexOutOfBounds) || strings.HasPrefix(msg, tengo.ErrIndexOutOfBounds.Error()):
 		return "index_out_of_bounds"
 	case errors.Is(err, tengo.ErrInvalidIndexOnError):
 		return "invalid_index_on_error"
@@ -267,7 +290,7 @@ func runProgram(pc *progCase) (res progResult) {
 		}
 		msg := err.Error()
 		res.Outcome = V{"k": "runtime_error", "kind": classifyRuntime(err), "msg": msg,
-			"positions": parsePositions(msg, files), "g": encodeGlobals(c)}
+			"positions": parsePositions(msg, files), "g": encodeGlobals(c), "sentinels": sentinels(err)}
 		return
 	}
 	res.Outcome = V{"k": "ok", "g": encodeGlobals(c)}
